@@ -348,7 +348,7 @@ func runIOReader(c *IOCase, x *sim.Ctx) *sim.Violation {
 	x.Shape(b.Format)
 	site, bounds := streamSites(b)
 	n := len(b.Stream)
-	pos := positionsCost(n+1, bounds, n+1, decodeCost(b, rc.Reads)*2)
+	pos := positionsCost(n+1, bounds, n+1, decodeCost(b, rc.Reads)*3)
 	for _, k := range pos {
 		// variant 0: bare error, sticky; 1: error together with the last good
 		// bytes, sticky; 2: bare error once (a transient failure: the source
